@@ -365,6 +365,7 @@ def do_bitpattern(case, ob, site):
     counts = {nm: pat.count(nm) for nm in names}
     fits = z3.And(*[z3.And(to_cond(fields[nm] >= -(1 << (counts[nm]))), to_cond(fields[nm] < (1 << counts[nm]))) for nm in names]) \
         if names else z3.BoolVal(True)
+    exf = lambda m: {'fields': {nm: m.eval(fields[nm].t, model_completion=True).as_signed_long() for nm in names}}
     for p in paths:
         if p.exc is not None:
             if isinstance(p.exc, pyrtl.PyrtlError):
@@ -372,7 +373,7 @@ def do_bitpattern(case, ob, site):
                 ob.prove('bitpattern:%s:raises-only-when-a-field-does-not-fit' % pat, z3.Not(z3.And(*[
                     z3.Or(z3.And(to_cond(fields[nm] >= 0), to_cond(fields[nm] < (1 << counts[nm]))),
                           z3.And(to_cond(fields[nm] < 0), to_cond(fields[nm] >= -(1 << counts[nm])))) for nm in names]))
-                    if names else z3.BoolVal(False), p.pc, None, site=site + ':rejects-fitting')
+                    if names else z3.BoolVal(False), p.pc, None, site=site + ':rejects-fitting', extract=exf)
             else:
                 ob.prove('bitpattern:%s:raises-only-PyrtlError' % pat, z3.Not(p.cond()), [], None, site=site + ':wrong-exception')
             continue
@@ -390,7 +391,7 @@ def do_bitpattern(case, ob, site):
             else:
                 goals.append(to_cond(((fields[ch] >> pos[ch]) & 1) == bit))
                 pos[ch] += 1
-        ob.prove('bitpattern:%s:bits' % pat, z3.And(*goals), p.pc, None, site=site + ':bits')
+        ob.prove('bitpattern:%s:bits' % pat, z3.And(*goals), p.pc, None, site=site + ':bits', extract=exf)
     # decode: the circuit match_bitpattern on a Const of a concrete instance matches and returns the same fields
     conc = {nm: (i * 5 + 3) % (1 << counts[nm]) for i, nm in enumerate(names)}
     val = H.bitpattern_to_val(pat, **conc)
@@ -499,7 +500,7 @@ def replay(cex):
     c = cex['case']
     k = c['k']
     val = cex.get('value')
-    if val is None and not cex.get('structural'):
+    if val is None and not cex.get('structural') and k != 'bitpattern':
         return False, 'no model value recorded'
     try:
         if k in ('infer', 'const'):
@@ -571,6 +572,31 @@ def replay(cex):
             lo, hi = -(1 << (b - 1)), (1 << (b - 1)) - 1
             bad = dec != val or enc != (val & ((1 << b) - 1)) or not (lo <= val <= hi)
             return bad, 'twos_comp_repr(%d, %d) = %d; rev = %d; accepted domain [%d, %d]' % (val, b, enc, dec, lo, hi)
+        if k == 'bitpattern':
+            pat = c['pat']
+            fv = cex.get('fields')
+            if fv is None:
+                from ..core import Obligations
+                ob = Obligations(PROP, c, 20000)
+                do_bitpattern(c, ob, site_of(c))
+                bad = [x['obligation'] for x in ob.sat if x.get('structural')]
+                return cex['obligation'] in bad, 'structural facts failing: %r' % bad[:4]
+            counts = {nm: pat.count(nm) for nm in fv}
+            fits = all((0 <= x < (1 << counts[nm])) or (-(1 << counts[nm]) <= x < 0) for nm, x in fv.items())
+            try:
+                val = H.bitpattern_to_val(pat, **fv)
+            except pyrtl.PyrtlError as e:
+                return fits, 'bitpattern_to_val(%r, **%r) raised %r although every field fits' % (pat, fv, e) if fits else 'rejected (does not fit)'
+            pos = {nm: 0 for nm in fv}
+            bad = []
+            for i, ch in enumerate(pat[::-1]):
+                bit = (val >> i) & 1
+                want = int(ch) if ch in '01' else (fv[ch] >> pos[ch]) & 1
+                if ch not in '01':
+                    pos[ch] += 1
+                if bit != want:
+                    bad.append(i)
+            return bool(bad) and fits, 'bitpattern_to_val(%r, **%r) = %s: wrong bits at positions %r' % (pat, fv, bin(val), bad)
     except Exception as e:
         return True, 'raised %r' % (e,)
     return False, 'no replay for %r' % (k,)
